@@ -597,6 +597,7 @@ func runC14(c *Ctx, r *Rec) {
 	}
 	r.floor("D3-views", 3)
 	checkNoSecondLookup(c, r, "D3-view-values-from-entries")
+	checkResetCompleteness(c, r, "D1-reset-complete", mp)
 
 	// ---- D4 loops
 	for _, n := range []*types.Named{mp, cls} {
